@@ -80,6 +80,8 @@ def parse_line(line):
 
 def obs(line):
     """split an observation line into named parts: head (result), P, LC, PL, J, E and m_<k> for the metadata part"""
+    if line.startswith("mid="):
+        line = line.split(" || ", 1)[1]
     parts = [p.strip() for p in line.split(" | ")]
     d = {}
     first = parts[0]
@@ -213,13 +215,17 @@ def run(ctx):
     # ------------------------------------------------------------------ oracle 2: admission on the implementation's own observations
     prev = None          # previous observation dict within the history
     lcs_prev = []
+    docs = {}            # resolver table of the current history: (did, source ref) -> entry (last registration wins)
     n_add = n_admit = n_reject = n_readd = 0
     for i, op in enumerate(ops):
         kind = op.get("op")
         if kind not in ("new", "add", "reopen", "sched", "doc"):
             continue
         if kind == "doc":
+            docs[(op.get("did"), op.get("src"))] = op.get("doc") or {}
             continue
+        if kind == "new":
+            docs = {}
         line = impl[i]
         if line.startswith("panic"):
             violate("C06:harness-panic", line[:200], i)
@@ -296,8 +302,24 @@ def run(ctx):
                     if "jwk" in m:
                         if not c.get("sigJwk"):
                             violate("C06:admitted-bad-signature", "signature does not verify against the embedded key", i)
-                    elif not c.get("sigKeys"):
-                        violate("C06:admitted-bad-signature", "signature verifies against no key", i)
+                    else:
+                        # the key the kid denotes in the signer's document as of the first prev that has one (keys.go), re-derived here
+                        kid = m.get("kid", {}).get("v", "")
+                        key, why = None, "no document for any prev"
+                        for el in m.get("prevs", {}).get("v", []):
+                            e = docs.get((c.get("kidDid"), el.get("s", "").lower()))
+                            if e is None:
+                                continue
+                            if e.get("res") != "doc":
+                                why = "resolver error"
+                                break
+                            hit = [v[1] for v in (e.get("vms") or []) if v[0] == kid]
+                            key, why = (hit[0], "") if hit else (None, "kid not in the document")
+                            break
+                        if c.get("kidDid") is None or key is None:
+                            violate("C06:admitted-unresolvable-kid", f"admitted although the kid resolves to no key ({why})", i)
+                        elif key not in (c.get("sigKeys") or []):
+                            violate("C06:admitted-bad-signature", f"signature does not verify against the key the kid denotes (key {key})", i)
                     if c.get("pid") is not None and c.get("sha", "").lower() != jws.get("payload", "").lower():
                         violate("C06:admitted-wrong-payload", "payload does not hash to the declared payload hash", i)
                     ev = [e for e in o.get("E", "").split(",") if e]
@@ -310,7 +332,7 @@ def run(ctx):
             prev, lcs_prev = o, []
     ctx.oblige("oracle:admission-sound/no-trace/idempotent(impl)", not any(s.split(":")[1] in (
         "rejected-left-trace", "readd-changed-state", "admission-not-exactly-one", "admitted-with-missing-prev", "admitted-with-wrong-clock",
-        "second-root", "admitted-bad-signature", "admitted-wrong-payload", "notification-not-exactly-once", "ref-stored-twice",
+        "second-root", "admitted-bad-signature", "admitted-unresolvable-kid", "admitted-wrong-payload", "notification-not-exactly-once", "ref-stored-twice",
         "count-differs-from-stored", "two-roots", "digest-differs-from-stored", "inconsistent-read", "reopen-differs") or
         s.startswith("C06:admitted-malformed") for s in seen_sig),
         f"{n_add} adds: {n_admit} admitted, {n_reject} rejected, {n_readd} re-adds")
@@ -325,6 +347,11 @@ def run(ctx):
     def canon_sched(line):
         o = obs(line)
         ev = sorted(e for e in o.get("E", "").split(",") if e)
+        if line.startswith("mid="):
+            # notifications are drained at every intermediate observation: collect them all
+            for mo in line[4:].split(" || ", 1)[0].split(" ;; "):
+                ev += [e for e in obs("x | " + mo).get("E", "").split(",") if e]
+            ev = sorted(ev)
         return (o["head"], o.get("LC"), o.get("PL"), o.get("J"), o.get("m_n"), o.get("m_lch"), o.get("m_lca"), o.get("m_head"), o.get("m_xor"), tuple(ev))
 
     def sequential(s):
@@ -343,6 +370,19 @@ def run(ctx):
         n_groups += 1
         for i in idx:
             n_sched += 1
+            if impl[i].startswith("mid="):
+                # every intermediate state: refs unique, count = stored, digest = fold, the DAG only grows
+                lastrefs = None
+                for mo in impl[i][4:].split(" || ", 1)[0].split(" ;; "):
+                    o2 = obs("x | " + mo)
+                    refs2 = [x.split(":")[1] for x in o2.get("LC", "").split(",") if x]
+                    xx = 0
+                    for r in refs2:
+                        xx ^= int(r, 16)
+                    if len(set(refs2)) != len(refs2) or int(o2.get("m_n", -1)) != len(refs2) or int(o2.get("m_xor", "0"), 16) != xx or \
+                            (lastrefs is not None and not set(lastrefs) <= set(refs2)):
+                        violate("C06:intermediate-state-invalid", f"between two steps of interleaving {ops[i]['sched']} the observable DAG is inconsistent", i)
+                    lastrefs = refs2
             if canon_sched(impl[i]) not in seqs:
                 violate("C06:schedule-not-serialisable", f"interleaving {ops[i]['sched']} ends in a state/results no sequential order produces", i)
     ctx.oblige("oracle:every-interleaving-equals-a-sequential-order(impl)", "C06:schedule-not-serialisable" not in seen_sig,
